@@ -37,7 +37,7 @@ Definition src2_for_me (v_conditions : pyval) (v_myself : pyval) : pyval :=
    | BErr => PErr
    end).
 
-(* saml2/response.py:AuthnResponse.verify_recipient, lines 1138-1163 *)
+(* saml2/response.py:AuthnResponse.verify_recipient, lines 1145-1170 *)
 Definition src2_verify_recipient (v_self : pyval) (v_recipient : pyval) : pyval :=
   let v__info := PErr in
   (match p2_branch (p2_not (p2_attr v_self "conv_info")) with
@@ -321,7 +321,7 @@ Definition src2_condition_ok (later_than_ext : pyval -> pyval -> pyval) (validat
    | BErr => PErr
    end).
 
-(* saml2/config.py:Config.endpoint, lines 395-425 *)
+(* saml2/config.py:Config.endpoint, lines 411-441 *)
 Definition src2_endpoint (getattr_ext : pyval -> pyval -> pyval -> pyval) (type_ext : pyval -> pyval) (v_self : pyval) (v_service : pyval) (v_binding : pyval) (v_context : pyval) : pyval :=
   let v_spec := PErr in
   let v_unspec := PErr in
